@@ -12,6 +12,12 @@ TimeoutError / OSError, m-th reconnect); the client's mutex is instrumented, so 
 acquire, write(timeout, result), read(k, timeout), reconnect(result), release with virtual timestamps.  The client
 timeout may be `None` or 0 there (`timeout if timeout else 0`, `_read`'s `timeout is None and self.timeout`).
 
+Session cases (`{"session": [step, ...]}`, model `Model/ClientSession.lean`): several requests, one after the other, in
+ONE fresh process, over 24 request kinds whose services share sub-function ids.  `runSession` keeps nothing between
+requests (theorems `session_step`, `session_history_irrelevant`), so every step is compared with the model of that step
+alone; a step that ends differently only because of what the process requested before is a failing input whose replay
+is the whole (minimised) session.
+
 Whether a difference falsifies the *property* is decided by the specification `Spec/ClientSpec.lean` (widened cases:
 `Spec/ClientIOSpec.lean`): by the theorems `implied_iff_run`, `writes_eq`, `reads_le`, `elapsed_le`, `first_final` and
 `pending_no_write` of `Proofs/C04.lean` (widened: the same names with `_io`) an observed behaviour satisfies the
@@ -48,6 +54,13 @@ ASSUMPTIONS = [
     "effective timeout may be None or 0: a transport call that got no deadline and still raises TimeoutError does so on "
     "its own account (0 ms); a transport that blocks forever without a deadline is outside the model; with timeout 0 "
     "only replies that are already there (latency 0) are delivered",
+    "sessions: the requests of a session are issued one after the other (C05 covers concurrent callers); half of the "
+    "sessions use one client object (UDSClient or ECU) and one transport object for all requests (`shared`; only timeout, "
+    "max_retry and the mutex are set per request, and a client whose transport was left closed by a failed reconnect is "
+    "replaced), the others a client of its own per request; every request has its own event script.  What can be carried "
+    "from one request to the next is thus process-level state (module / class attributes of the parser and the client "
+    "classes) and, in shared sessions, attributes of the client instance.  Every session starts in a process forked from a helper that has imported gallia and built the request "
+    "objects but has never parsed a PDU",
     "asyncio.Lock is released by `async with` whatever leaves the block (contract of asyncio; observed on an "
     "instrumented lock in every widened case)",
 ]
@@ -263,6 +276,55 @@ def _gallia():
              malformed=["71", "7f31", "7f", "7f3101", "7f313b", "7f31ff"]),
     ]
 
+    # request kinds 4.. : services whose requests share sub-function ids with one another (31 0x, 19 0x, 2C 0x, 10 0x, 11 0x,
+    # 27 0x, 28 0x, 85 0x, 3E 00).  They are used by the session cases (several requests in ONE fresh process); the table is
+    # built from constructors only - nothing is parsed here, so the process the sessions start from has no parsing history
+    def kk(k):
+        return bytes([(k >> 8) & 0xFF, k & 0xFF])
+
+    fam = [
+        ("RoutineControl/startRoutine", service.StartRoutineRequest(0x0203), lambda k: bytes.fromhex("71010203") + kk(k)),
+        ("RoutineControl/stopRoutine", service.StopRoutineRequest(0x0203), lambda k: bytes.fromhex("71020203") + kk(k)),
+        ("RoutineControl/requestRoutineResults", service.RequestRoutineResultsRequest(0x0203),
+         lambda k: bytes.fromhex("71030203") + kk(k)),
+        ("ReadDTCInformation/reportNumberOfDTCByStatusMask", service.ReportNumberOfDTCByStatusMaskRequest(0xFF),
+         lambda k: bytes.fromhex("5901ff01") + kk(k)),
+        ("ReadDTCInformation/reportDTCByStatusMask", service.ReportDTCByStatusMaskRequest(0xFF),
+         lambda k: bytes.fromhex("5902ff12") + kk(k) + b"\x2f"),
+        ("ReadDTCInformation/reportSupportedDTC", service.ReportSupportedDTCRequest(),
+         lambda k: bytes.fromhex("590aff12") + kk(k) + b"\x2f"),
+        ("DynamicallyDefineDataIdentifier/defineByIdentifier", service.DefineByIdentifierRequest(0xF301, [0xF190], [1], [2]),
+         lambda k: bytes.fromhex("6c01f301")),
+        ("DynamicallyDefineDataIdentifier/defineByMemoryAddress", service.DefineByMemoryAddressRequest(0xF302, [0x1000], [4]),
+         lambda k: bytes.fromhex("6c02f302")),
+        ("DynamicallyDefineDataIdentifier/clear", service.ClearDynamicallyDefinedDataIdentifierRequest(0xF303),
+         lambda k: bytes.fromhex("6c03f303")),
+        ("DiagnosticSessionControl/default", service.DiagnosticSessionControlRequest(0x01),
+         lambda k: bytes.fromhex("50010019") + kk(k)),
+        ("DiagnosticSessionControl/programming", service.DiagnosticSessionControlRequest(0x02),
+         lambda k: bytes.fromhex("50020019") + kk(k)),
+        ("ECUReset/hardReset", service.ECUResetRequest(0x01), lambda k: bytes.fromhex("5101")),
+        ("ECUReset/softReset", service.ECUResetRequest(0x03), lambda k: bytes.fromhex("5103")),
+        ("SecurityAccess/requestSeed", service.RequestSeedRequest(0x01), lambda k: bytes.fromhex("6701") + kk(k)),
+        ("SecurityAccess/sendKey", service.SendKeyRequest(0x02, b"\x11\x22"), lambda k: bytes.fromhex("6702")),
+        ("CommunicationControl/enableRxDisableTx", service.CommunicationControlRequest(0x01, 0x01),
+         lambda k: bytes.fromhex("6801")),
+        ("CommunicationControl/disableRxTx", service.CommunicationControlRequest(0x03, 0x01), lambda k: bytes.fromhex("6803")),
+        ("ControlDTCSetting/on", service.ControlDTCSettingRequest(0x01), lambda k: bytes.fromhex("c501")),
+        ("ControlDTCSetting/off", service.ControlDTCSettingRequest(0x02), lambda k: bytes.fromhex("c502")),
+        ("TesterPresent", service.TesterPresentRequest(), lambda k: bytes.fromhex("7e00")),
+    ]
+    for name, rq, pos in fam:
+        sid, sub = rq.pdu[0], rq.pdu[1]
+        same_sub = [p(0).hex() for _, r2, p in fam if r2.pdu[1] == sub and r2.pdu[0] != sid]
+        same_sid = [p(0).hex() for _, r2, p in fam if r2.pdu[0] == sid and r2.pdu[1] != sub]
+        other = 0x19 if sid == 0x31 else 0x31
+        reqs.append(dict(name=name, req=rq, sid=sid, pos=pos,
+                         mismatch=same_sub[:3] + same_sid[:2] + [f"7f{other:02x}78", f"7f{other:02x}21", "62f190aa"],
+                         malformed=[f"{sid + 0x40:02x}", f"7f{sid:02x}", "7f", f"7f{sid:02x}00", f"7f{sid:02x}ff"]))
+    for r in reqs:
+        r["tag"] = bytes(r["req"].pdu[:2]).hex()
+
     class State:
         conn_errors = [ConnectionResetError, BrokenPipeError, ConnectionAbortedError, ConnectionError]
 
@@ -332,19 +394,29 @@ def ms(t):
     return int(round(t * 1000))
 
 
-async def impl_case(case):
-    """run one request of the real client; returns the canonical observation"""
+async def impl_case(case, reuse=None):
+    """run one request of the real client; returns the canonical observation.  `reuse`: a dict that carries the client
+    object from one request of a session to the next (same object, same transport unless the client reconnected)"""
     G = _gallia()
     st = G["State"](case)
     FT = G["FakeTransport"]
     FT.state = st
-    tr = FT(G["TargetURI"]("fake://script"))
-    # every third case runs on the ECU class (the UDSClient subclass all scanners use: its _request wraps the exchange with state tracking and
-    # database logging and must hand the same outcome through), the others on the plain client
-    klass = G["ECU"] if (case["var"] + len(case["script"])) % 3 == 2 else G["UDSClient"]
-    client = klass(tr, timeout=None if case["ct"] is None else case["ct"] / 1000, max_retry=case["cm"])
-    if st.x:
-        client.mutex = G["LogLock"](st)
+    client = reuse.get("client") if reuse is not None else None
+    if client is not None and not client.transport.is_closed:
+        # the session's client issues this request too; only its configuration attributes are set for the step
+        client.timeout = None if case["ct"] is None else case["ct"] / 1000
+        client.max_retry = case["cm"]
+        client.mutex = G["LogLock"](st) if st.x else asyncio.Lock()
+    else:
+        tr = FT(G["TargetURI"]("fake://script"))
+        # every third case runs on the ECU class (the UDSClient subclass all scanners use: its _request wraps the exchange with state tracking and
+        # database logging and must hand the same outcome through), the others on the plain client
+        klass = G["ECU"] if (case["var"] + len(case["script"])) % 3 == 2 else G["UDSClient"]
+        client = klass(tr, timeout=None if case["ct"] is None else case["ct"] / 1000, max_retry=case["cm"])
+        if st.x:
+            client.mutex = G["LogLock"](st)
+    if reuse is not None:
+        reuse["client"] = client
     if case["rt"] is None and case["rm"] is None:
         cfg = None if case["var"] % 2 == 0 else G["UDSRequestConfig"]()
     else:
@@ -501,15 +573,17 @@ async def _bounded(coro, cap):
         raise
 
 
-def run_impl_batch(cases):
-    """all cases in one virtual-time loop (falls back to one loop per case if something stalls)"""
+def run_impl_batch(cases, shared=False):
+    """all cases in one virtual-time loop (falls back to one loop per case if something stalls); `shared`: one client
+    object for all of them (a session), replaced only after its transport was left closed"""
     def go(cs):
         loop = VLoop()
         try:
             asyncio.set_event_loop(loop)
 
             async def main():
-                return [await impl_case(c) for c in cs]
+                reuse = {} if shared else None
+                return [await impl_case(c, reuse) for c in cs]
             return loop.run_until_complete(main())
         finally:
             asyncio.set_event_loop(None)
@@ -525,6 +599,245 @@ def run_impl_batch(cases):
                 out.append({"out": "hang", "writes": -1, "reads": -1, "elapsed": -1, "trace": [], "detail": "virtual loop stalled",
                             "mutex_free": False, "kinds": ""})
         return out
+
+
+# ---------------------------------------------------------------------------------------------------------
+# sessions: several requests, one after the other, in ONE fresh process
+# ---------------------------------------------------------------------------------------------------------
+#
+# A session case is {"session": [step, ...]}; every step is an ordinary (or widened) case with its own script and request
+# kind.  The model has no state between requests (`Model/ClientSession.lean`: `runSession`; theorem `session_step`: the
+# i-th result of a session is the result of that request alone, whatever preceded it), so every step is judged against
+# its own `run` / `runx` line (sessions of plain steps are also sent through the driver's `session` command = `runSession`).  What the implementation may carry from one request to the next lives in the process
+# (module / class level state of the parser, the client classes, ...), so a session must start from a process with no
+# history: a helper process ("zygote") is forked before the check has parsed anything; it never runs a case itself and
+# forks one child per session.
+
+_Z = {}
+
+
+def _session_child(sess):
+    return run_impl_batch(sess["session"], shared=bool(sess.get("shared")))
+
+
+def _zygote_main(conn, nproc):
+    pool = multiprocessing.get_context("fork").Pool(nproc, maxtasksperchild=1)
+    try:
+        while True:
+            try:
+                msg = conn.recv()
+            except EOFError:
+                break
+            if msg is None:
+                break
+            try:
+                conn.send(("ok", pool.map_async(_session_child, msg, chunksize=1).get(timeout=600)))
+            except BaseException as e:  # noqa: BLE001 - reported to the caller, which raises
+                conn.send(("err", repr(e)))
+    finally:
+        pool.terminate()
+
+
+def zygote():
+    """start the helper (idempotent); must be called before the calling process parsed any PDU"""
+    if "conn" in _Z:
+        return _Z
+    import atexit
+    _gallia()
+    ctxm = multiprocessing.get_context("fork")
+    here, there = ctxm.Pipe()
+    pr = ctxm.Process(target=_zygote_child, args=(here, there, min(8, max(2, multiprocessing.cpu_count() // 2))))
+    pr.start()
+    there.close()
+    _Z.update(conn=here, proc=pr)
+    atexit.register(zygote_stop)
+    return _Z
+
+
+def _zygote_child(here, there, nproc):
+    here.close()
+    _zygote_main(there, nproc)
+
+
+def zygote_stop():
+    if "conn" not in _Z:
+        return
+    try:
+        _Z["conn"].send(None)
+        _Z["conn"].close()
+    except Exception:  # noqa: BLE001
+        pass
+    _Z["proc"].join(5)
+    if _Z["proc"].is_alive():
+        _Z["proc"].terminate()
+    _Z.clear()
+
+
+def run_sessions(driver, sessions):
+    """[(obs per step, model per step)] for each session; every session in its own fresh process"""
+    if not sessions:
+        return []
+    z = zygote()
+    z["conn"].send(sessions)
+    lines = [case_line(c) for s_ in sessions for c in s_["session"]]
+    # sessions of plain steps also go through the model's own session loop (`runSession`, driver command `session`)
+    plain = [s_ for s_ in sessions if not any(is_x(c) for c in s_["session"])]
+    lines += ["session " + " ".join(case_line(c)[4:] for c in s_["session"]) for s_ in plain]
+    raw = lean_batch(driver, lines)
+    mods = [parse_model(l) for l in raw[:len(raw) - len(plain)]]
+    sess_lines = dict(zip(map(id, plain), raw[len(raw) - len(plain):]))
+    st, obs = z["conn"].recv()
+    if st != "ok":
+        raise RuntimeError("session runner: " + obs)
+    out = []
+    i = 0
+    for s_, o in zip(sessions, obs):
+        n = len(s_["session"])
+        if id(s_) in sess_lines:
+            want = "|".join(f"{m['out']}:{m['writes']}:{m['reads']}:{m['elapsed']}" for m in mods[i:i + n])
+            if sess_lines[id(s_)] != want:
+                # `session_step` proves this cannot happen; the driver or the harness would be broken
+                raise RuntimeError(f"model: runSession gives {sess_lines[id(s_)]}, the requests alone give {want}")
+        out.append((o, mods[i:i + n]))
+        i += n
+    return out
+
+
+def judge_session(sess, obs, mods):
+    """None, or (index of the first step that fails, verdict of `judge` for it)"""
+    for i, (c, o, m) in enumerate(zip(sess["session"], obs, mods)):
+        v = judge(c, o, m)
+        if v is not None:
+            return i, v
+    return None
+
+
+def req_tag(case):
+    rq = _gallia()["reqs"]
+    return rq[case["req"] % len(rq)]["tag"]
+
+
+def shrink_session(driver, sess, obs, mods, fail):
+    """fixed order: cut after the failing step, drop earlier steps (first to last), plain earlier steps, plain failing step"""
+    i, v = fail
+    sig = signature(sess["session"][i], obs[i], mods[i], v)
+    extra = {k: v_ for k, v_ in sess.items() if k != "session"}
+    best = ({**extra, "session": sess["session"][:i + 1]}, obs[:i + 1], mods[:i + 1], (i, v))
+
+    def attempt(steps, **kw):
+        nonlocal best
+        cand = {**extra, **kw, "session": steps}
+        cand = {k: v_ for k, v_ in cand.items() if k == "session" or v_}
+        (o, m), = run_sessions(driver, [cand])
+        f = judge_session(cand, o, m)
+        # the failure must stay in the last step: a request that fails on its own history-free is another finding
+        if f is None or f[0] != len(steps) - 1 or signature(steps[-1], o[-1], m[-1], f[1]) != sig:
+            return False
+        best = (cand, o, m, f)
+        return True
+
+    if extra.get("shared") and attempt(best[0]["session"], shared=0):
+        extra = {}
+    changed = True
+    while changed:
+        changed = False
+        steps = best[0]["session"]
+        for j in range(len(steps) - 1):
+            if attempt(steps[:j] + steps[j + 1:]):
+                changed = True
+                break
+    for j in range(len(best[0]["session"]) - 1):
+        steps = best[0]["session"]
+        plain = mk_case("P", req=steps[j]["req"])
+        if steps[j] != plain:
+            attempt(steps[:j] + [plain] + steps[j + 1:])
+    last = best[0]["session"][-1]
+    mr, tmo = effective(last)
+    cands = [mk_case(last["script"], cm=mr, ct=tmo if tmo else 1000, lat=last["lat"], pad=last["pad"], req=last["req"], var=last["var"])]
+    for patch in ({"var": 0}, {"ct": 1000}, {"lat": 10}, {"pad": "t"}):
+        cands.append(patch)
+    for cnd in cands:
+        last = best[0]["session"][-1]
+        c2 = cnd if "script" in cnd else ({**last, **cnd} if not is_x(last) else None)
+        if c2 is not None and c2 != last:
+            attempt(best[0]["session"][:-1] + [c2])
+    # shortest script of the failing step, fewest retries
+    for _ in range(12):
+        last = best[0]["session"][-1]
+        rl = parse_script(last["script"])
+        letters = "".join(ch * n for ch, n in rl)
+        used = max(best[1][-1]["reads"], 0)
+        trial = [letters[:used]] if used < len(letters) else []
+        trial += [letters[:q] + letters[q + 1:] for q in range(min(len(letters), 12))]
+        if not any(t != letters and attempt(best[0]["session"][:-1] + [{**last, "script": script_text(compress(t))}]) for t in trial):
+            break
+    last = best[0]["session"][-1]
+    if last["rm"] is None:
+        for m_ in range(last["cm"]):
+            if attempt(best[0]["session"][:-1] + [{**last, "cm": m_}]):
+                break
+    return best
+
+
+def session_key(sess, obs, mods, fail):
+    i, v = fail
+    c, o, m = sess["session"][i], obs[i], mods[i]
+    mr, _ = effective(c)
+    hist = ">".join(req_tag(s_) for s_ in sess["session"][:i]) or "-"
+    ctx_txt = context_of(c, o["reads"] if o["reads"] >= 0 else script_len(parse_script(c["script"])))
+    return (f"client-session{'-one-client' if sess.get('shared') else ''}:{'spec' if v[0] else 'tie'}:history={hist}:request={req_tag(c)}:events={ctx_txt}:max_retry={mr}:"
+            f"impl={out_class(o['out'])}:implied={out_class(m['out'])}")
+
+
+FINAL_SHAPES = [
+    # (script, max_retry): a genuine final reply - directly, after responsePending, after a timeout + retry, after busy + retry,
+    # after a connection loss + retry - and the illegal replies
+    ("P", 0), ("p,P", 0), ("t,P", 1), ("b,P", 1), ("c,p*2,P", 1), ("n", 0), ("p,n", 0), ("m", 0), ("f", 0), ("p,t,p,P", 2),
+]
+
+
+def session_cases(ctx):
+    """pairs (both orders) of request kinds x shapes of the second request; seeded random sessions of 2..6 requests"""
+    rq = _gallia()["reqs"]
+    n = len(rq)
+    rng = ctx.rng
+    out = []
+    q = 0
+    for a in range(n):
+        for b in range(n):
+            if a == b:
+                continue
+            pa, pb = rq[a]["req"].pdu, rq[b]["req"].pdu
+            share = len(pa) > 1 and len(pb) > 1 and pa[1] == pb[1] and pa[0] != pb[0]
+            shapes = FINAL_SHAPES if (share or not ctx.quick) else [FINAL_SHAPES[0], FINAL_SHAPES[1 + q % (len(FINAL_SHAPES) - 1)]]
+            q += 1
+            for sc, cm in shapes:
+                first = FINAL_SHAPES[(q + len(out)) % 5]
+                out.append({"session": [mk_case(first[0], cm=first[1], req=a, var=(a + q) % 7),
+                                        mk_case(sc, cm=cm, req=b, var=(b + len(out)) % 16)]} | ({"shared": 1} if len(out) % 2 else {}))
+    by_sub = {}
+    for i, r in enumerate(rq):
+        if len(r["req"].pdu) > 1:
+            by_sub.setdefault(r["req"].pdu[1], []).append(i)
+    groups = [g for g in by_sub.values() if len({rq[i]["sid"] for i in g}) > 1]
+    for _ in range(ctx.pick(700, 8000)):
+        steps = []
+        g = rng.choice(groups)
+        for _j in range(rng.randint(2, 6)):
+            r = rng.choice(g) if rng.random() < 0.6 else rng.randrange(n)
+            u = rng.random()
+            if u < 0.5:
+                sc, cm = rng.choice(FINAL_SHAPES)
+                c = mk_case(sc, cm=cm, req=r, var=rng.randrange(64))
+            elif u < 0.85:
+                c = random_case(rng, False)
+                c["req"] = r
+            else:
+                c = random_xcase(rng)
+                c["req"] = r
+            steps.append(c)
+        out.append({"session": steps} | ({"shared": 1} if rng.random() < 0.5 else {}))
+    return out
 
 
 # ---------------------------------------------------------------------------------------------------------
@@ -1112,6 +1425,7 @@ def run(ctx):
     ctx.rule = ("one real UDSClient.request() per case on the scripted transport; distinct = distinct (configuration, "
                 "event script as consumed; tree cases are distinct by construction, sampled ones by seed); non-trivial = the "
                 "client performed at least two reads, i.e. at least one fault / busy / pending event preceded the end")
+    zygote()  # before anything is parsed in this process: the sessions start from a process without history
     depth = ctx.pick(6, 8)
     depth_override = ctx.pick(5, 6)
     tasks = []
@@ -1179,6 +1493,8 @@ def run(ctx):
         for (b, d), ra in zip(xroots, xres_a):
             for nd in ra[5]:
                 xjobs_b.append(pool.apply_async(_xtree_worker, ((str(driver), b, nd, d, None),)))
+        sess = session_cases(ctx)
+        sess_res = run_sessions(driver, sess)
         results = [j.get() for j in jobs]
         xres_b = [j.get() for j in xjobs_b]
     for ra in xres_a + xres_b:
@@ -1208,7 +1524,32 @@ def run(ctx):
     ctx.notes["requests"] = [r["name"] for r in _gallia()["reqs"]]
     ctx.sample({"case": lr[0], "line": case_line(lr[0])})
 
+    # sessions: every step against the history-free model
+    ctx.exhaustive_parts.append(
+        f"sessions in one fresh process: every ordered pair of the {len(_gallia()['reqs'])} request kinds (services sharing "
+        f"sub-function ids: 31 01..03, 19 01/02/0A, 2C 01..03, 10 01..03, 11 01/03, 27 01/02, 28 01/03, 85 01/02, 3E 00, plus 22 and "
+        f"an unknown service), the second request ended by a final reply directly / after responsePending / after timeout, busy or "
+        f"connection loss + retry / by an illegal reply (all {len(FINAL_SHAPES)} shapes for pairs with equal sub-function byte)")
+    seen_sess = {}
+    n_steps = 0
+    for s_, (o, m) in zip(sess, sess_res):
+        ctx.ev(len(s_["session"]))
+        n_steps += len(s_["session"])
+        ctx.traces_validated += len(s_["session"])
+        ctx.nontrivial(("session", len(seen_sess), n_steps))
+        ctx.dist[f"session:len={len(s_['session'])}"] += 1
+        f = judge_session(s_, o, m)
+        if f is None:
+            continue
+        c = s_["session"][f[0]]
+        sg = (signature(c, o[f[0]], m[f[0]], f[1]), req_tag(c), tuple(sorted({req_tag(x) for x in s_["session"][:f[0]]})) if len(seen_sess) < 4 else ())
+        if sg in seen_sess or len(seen_sess) >= 8:
+            continue
+        seen_sess[sg] = (s_, o, m, f)
+    ctx.notes["sessions"] = len(sess)
+    ctx.notes["session_requests"] = n_steps
     # shrink and report
+    single_syms = set()
     seen_sig = {}
     for c, o, m, v in bad_all:
         sig = (signature(c, o, m, v), context_of(c, min(o["reads"], 400)) if len(seen_sig) < 30 else "")
@@ -1221,18 +1562,56 @@ def run(ctx):
         key = key_of(c2, o2, m2, v2)
         ctx.disagree(key, "UDSClient.request: " + "; ".join(v2[1]),
                      {"case": c2, "driver_line": case_line(c2), "events": [NAMES[ch] for ch, n in parse_script(c2["script"]) for _ in range(min(n, 3))][:12],
-                      "request": _gallia()["reqs"][c2["req"] % 4]["name"]}
+                      "request": _gallia()["reqs"][c2["req"] % len(_gallia()["reqs"])]["name"]}
                      | ({"writes": [W_NAMES[ch] for ch, n in parse_script(c2["w"]) for _ in range(min(n, 3))][:12],
                          "reconnects": [RC_NAMES[ch] for ch, n in parse_script(c2["rc"]) for _ in range(min(n, 3))][:12]}
                         if is_x(c2) else {}),
                      impl={k: o2[k] for k in ("out", "writes", "reads", "elapsed", "detail")} | {"trace": o2["trace"][:60]},
                      model={k: m2[k] for k in ("out", "writes", "reads", "elapsed")} | {"trace": m2["trace"][:60]},
                      spec_violated=v2[0], site="UDSClient.request_unsafe")
+        single_syms.add(key.split(":events=")[1] if ":events=" in key and not is_x(c2) else key)
+
+    # sessions: reported after the single-request findings
+    reported = set()
+    for s_, o, m, f in seen_sess.values():
+        s2, o2, m2, f2 = shrink_session(driver, s_, o, m, f)
+        key = session_key(s2, o2, m2, f2)
+        if f2[0] == 0:
+            # the request fails without any history: one report per symptom, none if the single-request part reported it
+            sym = key.split(":events=")[1]
+            if sym in single_syms or sym in reported:
+                continue
+            reported.add(sym)
+        if key in reported:
+            continue
+        reported.add(key)
+        i2 = f2[0]
+        rqs = _gallia()["reqs"]
+        ctx.disagree(key, f"UDSClient.request, request {i2 + 1} of a session in one process: " + "; ".join(f2[1][1]),
+                     {"case": s2, "driver_lines": [case_line(c) for c in s2["session"]],
+                      "requests": [f"{rqs[c['req'] % len(rqs)]['name']} ({bytes(rqs[c['req'] % len(rqs)]['req'].pdu).hex()}) events "
+                                   f"{c['script']}" for c in s2["session"]]},
+                     impl=[{k: x[k] for k in ("out", "writes", "reads", "elapsed", "detail")} for x in o2],
+                     model=[{k: x[k] for k in ("out", "writes", "reads", "elapsed")} for x in m2],
+                     spec_violated=f2[1][0], site="UDSClient.request_unsafe")
+    zygote_stop()
 
 
 def replay(ctx, case):
     _gallia()
     c = case.get("case", {}).get("case") or case.get("case")
+    if "session" in c:
+        (obs, mods), = run_sessions(ctx.driver_path, [c])
+        f = judge_session(c, obs, mods)
+        print("session in one fresh process,", "one client object for all requests" if c.get("shared") else "one client object per request")
+        for i, (st, o, m) in enumerate(zip(c["session"], obs, mods)):
+            print(f"request {i + 1}: {req_tag(st)}  {case_line(st)}")
+            print("  impl :", {k: o[k] for k in ("out", "writes", "reads", "elapsed", "detail")})
+            print("  model:", {k: m[k] for k in ("out", "writes", "reads", "elapsed")})
+        print("verdict:", "agree" if f is None else f"request {f[0] + 1}: " + ("property violated: " if f[1][0] else "tie broken: ")
+              + "; ".join(f[1][1]))
+        zygote_stop()
+        return f is not None
     obs, mods = check_cases(ctx.driver_path, [c])
     v = judge(c, obs[0], mods[0])
     print("case   :", case_line(c))
@@ -1261,7 +1640,12 @@ MANIFEST = {
                    "read-event script up to length 6 (quick) / 8 (thorough) x max_retry 0..3, configuration overrides, long runs "
                    "across the pending and silence limits; every widened script (write / read / reconnect decisions) up to 10 "
                    "(quick) / 12 (thorough) decisions x max_retry 0..3 and up to 8 / 9 x 8 configurations (timeout None / 0, "
-                   "overrides); call sequence incl. mutex acquire / release, deadlines, timestamps, outcome and __cause__ compared."),
+                   "overrides); call sequence incl. mutex acquire / release, deadlines, timestamps, outcome and __cause__ compared. "
+                   "Sessions (Model/ClientSession.runSession; session_step / session_history_irrelevant: a request's result "
+                   "does not depend on the requests before it; session_writes_le / session_elapsed_le: the bounds add up): "
+                   "every ordered pair of 24 request kinds (31 01..03, 19 01/02/0A, 2C 01..03, 10 01..03, 11 01/03, 27 01/02, "
+                   "28 01/03, 85 01/02, 3E 00, 22, unknown service) and seeded random sessions of 2..6 requests run on the real "
+                   "client in one fresh process each, every request compared with the history-free model."),
     "level_note": ("Trusted: Lean kernel (propext, Quot.sound, Classical.choice), asyncio timeouts/sleep/Lock under the "
                    "virtual-time loop, the fake transport, the harness. A failing reconnect_unsafe() is outside the property's "
                    "alphabet: its exception ends the request and the specification names that outcome (reconnectFailed) without "
